@@ -1,3 +1,3 @@
 #!/bin/bash
 # run the repo's pinned suite; print pass/fail counts (baseline: 678 passed, 3 failed)
-cd /repo && timeout 900 /venv/bin/python -m pytest -q -p no:cacheprovider 2>&1 | tail -6
+cd /repo && timeout 900 /venv/bin/python -m pytest -q -p no:cacheprovider --timeout=30 2>&1 | tail -6
